@@ -198,6 +198,7 @@ type world struct {
 	pFeedResync             int
 	pDelLost                int
 	allowPodCreateLag       bool
+	infLongStalls           bool
 }
 
 func (w *world) now() time.Duration { return time.Since(w.t0) }
